@@ -49,6 +49,13 @@ func vCheckInvariant(d *diff, tag string) {
 		rt.Assert(rng.elements == cnt, tag+"-range-count")
 		if rng != h.topRange {
 			rt.Assert(rng.isDivided == (cnt > h.compareThreshold), tag+"-divided-iff-over-threshold")
+			// no orphans: a range is indexed only while its parent is divided
+			rt.Assert(rng.parent != nil && rng.parent.isDivided, tag+"-range-indexed-only-under-divided-parent")
+		}
+		if !rng.isDivided {
+			// a leaf advertises the hash of exactly the elements it spans
+			want, _ := h.calcElementsHash(tuple.from, tuple.to)
+			rt.Assert(string(rng.hash) == string(want), tag+"-leaf-hash-is-hash-of-its-elements")
 		}
 	}
 }
